@@ -97,11 +97,18 @@ def corpus_trace(k: int, rank: int) -> List[Dict[str, Any]]:
     if k % 3 == 0:
         evs.append(kineto.runtime("cudaStreamSynchronize", t, 3, c))
         evs.append(kineto.cuda_sync("Stream Sync", t, 3, 7, c))
+    if k == 8:
+        # profiler steps emitted by two host threads, overlapping in time, with host events starting inside the overlaps
+        evs = [e for e in evs if not e["name"].startswith("ProfilerStep")]
+        for n, (s0, tid) in enumerate(((10, 100), (30, 101), (50, 100), (70, 101))):
+            evs.append(kineto.step(20 + n, b + s0, 30, tid=tid))
+        for n in range(4):
+            evs.append(kineto.cpu_op("aten::overlap", b + 32 + 20 * n, 2, ext=500 + n, tid=102))
     evs.append(kineto.cpu_op("aten::tail", b + 95, 2, ext=1))
     return evs
 
 
-CORPUS = list(range(8))
+CORPUS = list(range(9))
 BUNDLE_PARTS = 8
 
 
@@ -353,12 +360,22 @@ def check(world) -> Dict[str, Any]:
             b2 = bundle_mod.bundle(ta)                      # the same getters again on the same object
             ta.t.decode_symbol_ids(use_shorten_name=False)  # a legitimate session call that adds decoded columns
             b3 = bundle_mod.bundle(ta)
-            return b1, b2, b3
+            for r_ in sorted(ta.t.traces):                  # a critical path analysis of a window on every rank
+                for ann_ in ("cudaLaunchKernel", "ProfilerStep"):
+                    try:
+                        import contextlib, io
 
-        base, again, after_decode = load_with(ranks, None, None, then=thrice)
-        execs = 3
+                        with contextlib.redirect_stdout(io.StringIO()):
+                            ta.critical_path_analysis(rank=r_, annotation=ann_, instance_id=0)
+                    except Exception:
+                        pass
+            b4 = bundle_mod.bundle(ta)
+            return b1, b2, b3, b4
+
+        base, again, after_decode, after_cp = load_with(ranks, None, None, then=thrice)
+        execs = 4
         if world.get("part", 0) == 0:
-            for tagx, other in (("repeated-call", again), ("after-decode_symbol_ids", after_decode)):
+            for tagx, other in (("repeated-call", again), ("after-decode_symbol_ids", after_decode), ("after-critical_path_analysis", after_cp)):
                 if other != base:
                     diff = sorted(kk for kk in base if other.get(kk) != base[kk])
                     viol.append((f"bundle/result-depends-on-{tagx}/{'+'.join(diff)}", dict(k=k, base={x: base[x] for x in diff[:1]},
